@@ -3,6 +3,8 @@
 import CosetProofs.Ties.ContextRouting
 import CosetProofs.Ties.RecipientGuards
 import CosetProofs.Ties.Budget.Encrypt
+import CosetProofs.Ties.Compare.Encrypt
+import CosetProofs.Ties.Compare.Header
 namespace Coset.Props.C05
 
 /-! ### ties to the source text (regenerated on every run, compared in the kernel with the transcribed tree) -/
@@ -18,5 +20,12 @@ theorem tie_recipient_guards : Coset.Gen.recipientGuards = Coset.Pinned.recipien
 theorem tie_budget_encrypt : Coset.Ties.budgetCovered "encrypt" Coset.Gen.decisionBudget Coset.Pinned.decisionBudget = true := Coset.Ties.budget_encrypt
 
 #print axioms tie_budget_encrypt
+
+/-! comparisons and integer literals of the modules this property is anchored in (properties.jsonl): none beyond the transcribed tree's -/
+theorem tie_compare_encrypt : Coset.Ties.compareCovered "encrypt" Coset.Gen.decisionBudget Coset.Pinned.decisionBudget = true := Coset.Ties.compare_encrypt
+theorem tie_compare_header : Coset.Ties.compareCovered "header" Coset.Gen.decisionBudget Coset.Pinned.decisionBudget = true := Coset.Ties.compare_header
+
+#print axioms tie_compare_encrypt
+#print axioms tie_compare_header
 
 end Coset.Props.C05
